@@ -6,6 +6,8 @@ package main
 //   vm/vm.go eval                       the statements of the MakeCell, LoadFree, StoreFree arms
 //   vm/vm.go callFunction               what is placed in the slot after the parameters of a named function
 //   vm/frame.go CaptureLocals           the statements (heap copy shared by the frame and its cells)
+//   vm/frame.go ActivateCode            the statements (a frame slot is reset when an activation STARTS in it)
+//   vm/vm.go eval                       the LoadFast / StoreFast arms (through the active frame's current locals)
 //   compiler/symbol_table.go claimIndex, NewBlock; compiler.go compileBlock   block tables claim their
 //                                       indexes from the function table and never hand them back
 
@@ -109,14 +111,14 @@ func c02_genC02(repo string) string {
 			return true
 		}
 		name := c02Print(fset, cc.List[0])
-		if name == "op.MakeCell" || name == "op.LoadFree" || name == "op.StoreFree" {
+		if name == "op.MakeCell" || name == "op.LoadFree" || name == "op.StoreFree" || name == "op.LoadFast" || name == "op.StoreFast" {
 			for _, st := range cc.Body {
 				arms[name] = append(arms[name], c02Print(fset, st))
 			}
 		}
 		return true
 	})
-	for _, k := range []string{"op.MakeCell", "op.LoadFree", "op.StoreFree"} {
+	for _, k := range []string{"op.MakeCell", "op.LoadFree", "op.StoreFree", "op.LoadFast", "op.StoreFast"} {
 		if len(arms[k]) == 0 {
 			panic("eval: arm " + k + " not found")
 		}
@@ -124,6 +126,8 @@ func c02_genC02(repo string) string {
 	sb.WriteString(c02LeanList("armMakeCell", "vm.eval, case op.MakeCell", arms["op.MakeCell"]))
 	sb.WriteString(c02LeanList("armLoadFree", "vm.eval, case op.LoadFree", arms["op.LoadFree"]))
 	sb.WriteString(c02LeanList("armStoreFree", "vm.eval, case op.StoreFree", arms["op.StoreFree"]))
+	sb.WriteString(c02LeanList("armLoadFast", "vm.eval, case op.LoadFast", arms["op.LoadFast"]))
+	sb.WriteString(c02LeanList("armStoreFast", "vm.eval, case op.StoreFast", arms["op.StoreFast"]))
 
 	// callFunction: the `if code.IsNamed() { … }` block and the frame activation
 	fset, fd = c02Func(repo, "vm/vm.go", "callFunction")
@@ -153,6 +157,14 @@ func c02_genC02(repo string) string {
 		cl = append(cl, c02Print(fset, st))
 	}
 	sb.WriteString(c02LeanList("captureLocals", "frame.CaptureLocals", cl))
+
+	// ActivateCode: what a frame slot is reset to when a new activation starts in it
+	fset, fd = c02Func(repo, "vm/frame.go", "ActivateCode")
+	var ac []string
+	for _, st := range fd.Body.List {
+		ac = append(ac, c02Print(fset, st))
+	}
+	sb.WriteString(c02LeanList("activateCode", "frame.ActivateCode", ac))
 
 	// block tables: claimIndex (where a block's variables get their index and that nothing is
 	// ever handed back), NewBlock, and how compileBlock leaves its table
